@@ -269,8 +269,8 @@ def ctxNode : Option (List Plug) → Option Bytes
   | _ => none
 
 /-- the state this action's arglist holds for a node (`arglist_find`; a NULL node finds nothing) -/
-def nodeState (d : Dev) (a : Action) : Option Bytes → PState
-  | some n => match (getArgs d a.arglist).find? (fun (g : Arg) => g.node == n) with
+def nodeState (d : Dev) (al : Nat) : Option Bytes → PState
+  | some n => match (getArgs d al).find? (fun (g : Arg) => g.node == n) with
     | some g => g.state
     | none => .unknown
   | none => .unknown
@@ -283,9 +283,9 @@ def bodyCtx (body : List Stmt) (plugs : Option (List Plug)) : ExecCtx :=
 /-- `stmtIf` cut into pieces -/
 def stmtIf' (d : Dev) (a : Action) (o : Oracle) (e : ExecCtx) (body : List Stmt) (wantOn : Bool) : StepR :=
   if e.processing then ⟨d, setTop a { e with processing := false }, o, [], true⟩ else
-  if condHolds wantOn (nodeState d a (ctxNode e.plugs)) then
+  if condHolds wantOn (nodeState d a.arglist (ctxNode e.plugs)) then
     ⟨d, { a with exec := bodyCtx body (some (e.plugs.getD [])) :: { e with processing := true } :: a.exec.drop 1 }, o, [], true⟩
-  else if nodeState d a (ctxNode e.plugs) == .unknown then ⟨d, { a with errnum := .expfail }, o, [], true⟩
+  else if nodeState d a.arglist (ctxNode e.plugs) == .unknown then ⟨d, { a with errnum := .expfail }, o, [], true⟩
   else ⟨d, a, o, [], true⟩
 
 theorem stmtIf_eq (d : Dev) (a : Action) (o : Oracle) (e : ExecCtx) (body : List Stmt) (wantOn : Bool) :
@@ -315,7 +315,7 @@ theorem stmtIf_return (d : Dev) (a : Action) (o : Oracle) (e : ExecCtx) (body : 
 
 /-- the condition holds: the body is pushed, with the context's plugs -/
 theorem stmtIf_taken (d : Dev) (a : Action) (o : Oracle) (e : ExecCtx) (body : List Stmt) (wantOn : Bool)
-    (hp : e.processing = false) (hst : nodeState d a (ctxNode e.plugs) = (if wantOn then .on else .off)) :
+    (hp : e.processing = false) (hst : nodeState d a.arglist (ctxNode e.plugs) = (if wantOn then .on else .off)) :
     (stmtIf d a o e body wantOn).act =
       { a with exec := bodyCtx body (some (e.plugs.getD [])) :: { e with processing := true } :: a.exec.drop 1 } := by
   rw [stmtIf_eq]; unfold stmtIf'
@@ -323,14 +323,14 @@ theorem stmtIf_taken (d : Dev) (a : Action) (o : Oracle) (e : ExecCtx) (body : L
 
 /-- the state is known and is the other one: nothing is pushed, nothing fails -/
 theorem stmtIf_skipped (d : Dev) (a : Action) (o : Oracle) (e : ExecCtx) (body : List Stmt) (wantOn : Bool)
-    (hp : e.processing = false) (hst : nodeState d a (ctxNode e.plugs) = (if wantOn then .off else .on)) :
+    (hp : e.processing = false) (hst : nodeState d a.arglist (ctxNode e.plugs) = (if wantOn then .off else .on)) :
     (stmtIf d a o e body wantOn).act = a := by
   rw [stmtIf_eq]; unfold stmtIf'
   cases wantOn <;> simp [hp, hst, condHolds]
 
 /-- the state is unknown: nothing is pushed and the action fails -/
 theorem stmtIf_unknown (d : Dev) (a : Action) (o : Oracle) (e : ExecCtx) (body : List Stmt) (wantOn : Bool)
-    (hp : e.processing = false) (hst : nodeState d a (ctxNode e.plugs) = .unknown) :
+    (hp : e.processing = false) (hst : nodeState d a.arglist (ctxNode e.plugs) = .unknown) :
     (stmtIf d a o e body wantOn).act = { a with errnum := .expfail } := by
   rw [stmtIf_eq]; unfold stmtIf'
   cases wantOn <;> simp [hp, hst, condHolds]
@@ -339,7 +339,7 @@ theorem stmtIf_unknown (d : Dev) (a : Action) (o : Oracle) (e : ExecCtx) (body :
 theorem stmtIf_pushed_only_if (d : Dev) (a : Action) (o : Oracle) (e : ExecCtx) (body : List Stmt) (wantOn : Bool)
     (hne : a.exec ≠ [])
     (h : (stmtIf d a o e body wantOn).act.exec.length > a.exec.length) :
-    e.processing = false ∧ nodeState d a (ctxNode e.plugs) = (if wantOn then .on else .off) := by
+    e.processing = false ∧ nodeState d a.arglist (ctxNode e.plugs) = (if wantOn then .on else .off) := by
   rw [stmtIf_eq] at h; unfold stmtIf' at h
   have hl : (a.exec.drop 1).length + 1 = a.exec.length := by
     cases hx : a.exec with
